@@ -434,6 +434,15 @@ BENIGN = [
     ("locale-add-key", "src/pendulum/locales/fr/custom.py", None, None, ["C18"], [('    "after": ', '    "since": "depuis {0}",\n    "after": ')]),
     ("deepcopy-memo-name", DUR, None, None, ["C14", "C10"], [("    def __deepcopy__(self, _: dict[int, Self]) -> Self:\n        return self.__class__(\n            days=self.remaining_days,", "    def __deepcopy__(self, memo: dict[int, Self]) -> Self:\n        return self.__class__(\n            days=self.remaining_days,")]),
 ]
+BENIGN += [
+    ("type-self", DATE, None, None, ["C04", "C05", "C11", "C14"], [("        return self.__class__(dt.year, dt.month, dt.day)\n\n    def subtract", "        return type(self)(dt.year, dt.month, dt.day)\n\n    def subtract")]),
+    ("annotated-assign", DUR, None, None, ["C09", "C10"], [("        self._total = total\n", "        self._total: float = total\n")]),
+    ("astimezone-kwargs-order", DT, None, None, ["C01", "C11"], [("            dt.microsecond,\n            fold=dt.fold,\n            tzinfo=dt.tzinfo,\n        )", "            dt.microsecond,\n            tzinfo=dt.tzinfo,\n            fold=dt.fold,\n        )")]),
+    ("convert-elif-to-if", TZ, None, None, ["C01", "C02"], [("            elif offset_before > offset_after and raise_on_unknown_times:\n                # Repeated time\n                raise AmbiguousTime(dt)", "            if offset_before > offset_after and raise_on_unknown_times:\n                # Repeated time\n                raise AmbiguousTime(dt)")]),
+    ("time-diff-parenthesise", TIME, None, None, ["C20"], [("        return klass(microseconds=us2 - us1)", "        delta_us = us2 - us1\n\n        return klass(microseconds=delta_us)")]),
+    ("neg-symmetry-kw-order", DATE, None, None, ["C04"], [("return self.add(years=-years, months=-months, weeks=-weeks, days=-days)", "return self.add(days=-days, weeks=-weeks, months=-months, years=-years)")]),
+    ("in-seconds-trunc-int", DUR, None, None, ["C05", "C09"], [("    def in_weeks(self) -> int:\n        return int(self.total_weeks())", "    def in_weeks(self) -> int:\n        weeks = self.total_weeks()\n\n        return int(weeks)")]),
+]
 for _name, _file, _o, _n, _props, _pairs in BENIGN:
     for _p in _props:
         VARIANTS.append((f"{_p}-benign-{_name}", _p, _file, [(a, b) for a, b in _pairs] if _pairs else [(_o, _n)], None, None, None))
